@@ -327,8 +327,8 @@ def _sample(case):
 
 def plan(tier: str) -> list[dict]:
     if tier == "quick":
-        return ([{"mode": "machine", "n_min": 3, "n_max": 5, "examples": 50, "steps": 15, "cost": 4} for _ in range(4)]
-                + [{"mode": "exh3", "examples": 16, "cost": 3}])
+        return ([{"mode": "machine", "n_min": 3, "n_max": 5, "examples": 150, "steps": 18, "cost": 4} for _ in range(5)]
+                + [{"mode": "exh3", "examples": 40, "cost": 3}])
     return ([{"mode": "machine", "n_min": 3, "n_max": 5, "examples": 300, "steps": 25, "cost": 10} for _ in range(11)]
             + [{"mode": "exh3", "examples": 150, "cost": 8} for _ in range(2)]
             + [{"mode": "families", "cost": 10, "part": p, "parts": 3} for p in range(3)])
